@@ -157,6 +157,9 @@ def _invariant_loop(X, st, fr, ls, forinfo):
             f = f.parent
         for f in reversed(chain):
             env.update(f.vars)
+        # entry values of the parameters: `lo0` is `lo` as passed by the caller
+        for pn, pv in getattr(X, 'entry_env', {}).items():
+            env.setdefault(pn + '0', pv)
         if is_for:
             env[ls.index] = ZV(idx)
             env[ls.seq] = seq
@@ -227,6 +230,13 @@ def _invariant_loop(X, st, fr, ls, forinfo):
         ghostvals[gname] = X.fresh(GT, 'lg_' + gname)
         X.named_ghosts[gname] = ghostvals[gname]
     idx = idx0
+    if is_for and live is not None and isinstance(deref(live), ListV):
+        # a live list is read element by element: at an arbitrary iteration the
+        # sequence is the list's CURRENT value (kept fixed inside one iteration by
+        # the non-interference obligation)
+        seq = deref(live)
+        item = seq.at
+        X.named_ghosts[ls.seq] = seq
     if is_for:
         idx = z3.Int(X.fresh_name('it'))
         X.assume(idx >= 0)
